@@ -525,6 +525,86 @@ static void tsyncCoopCase(Rng & rng, long nrec, int rewardMode) {
 }
 
 // ---------------------------------------------------------------------------------------------
+// table setters (setVisitsTable / setRewardMatrix / setM2Matrix, Eigen-typed and element-wise overloads) interleaved
+// with record / reset, and a MaximumLikelihoodModel constructed with sync = true over the loaded tables
+template <class E> struct SetterTypes;
+template <> struct SetterTypes<M::Experience> {
+    static constexpr const char * name = "dense-set"; static constexpr bool tol = false;
+    static void setV(M::Experience & e, const std::vector<std::vector<std::vector<unsigned long>>> & v, size_t S, size_t A) {
+        AIToolbox::Table3D t(A, AIToolbox::Table2D(S, S));
+        for (size_t s = 0; s < S; ++s) for (size_t a = 0; a < A; ++a) for (size_t s1 = 0; s1 < S; ++s1) t[a](s, s1) = v[s][a][s1];
+        e.setVisitsTable(t);
+    }
+    static void setM(M::Experience & e, const std::vector<std::vector<double>> & r, size_t S, size_t A, bool m2) {
+        AIToolbox::Matrix2D m(S, A);
+        for (size_t s = 0; s < S; ++s) for (size_t a = 0; a < A; ++a) m(s, a) = r[s][a];
+        if (m2) e.setM2Matrix(m); else e.setRewardMatrix(m);
+    }
+};
+template <> struct SetterTypes<M::SparseExperience> {
+    static constexpr const char * name = "sparse-set"; static constexpr bool tol = true;
+    static void setV(M::SparseExperience & e, const std::vector<std::vector<std::vector<unsigned long>>> & v, size_t S, size_t A) {
+        AIToolbox::SparseTable3D t(A, AIToolbox::SparseTable2D(S, S));
+        for (size_t s = 0; s < S; ++s) for (size_t a = 0; a < A; ++a) for (size_t s1 = 0; s1 < S; ++s1) if (v[s][a][s1]) t[a].insert(s, s1) = v[s][a][s1];
+        e.setVisitsTable(t);
+    }
+    static void setM(M::SparseExperience & e, const std::vector<std::vector<double>> & r, size_t S, size_t A, bool m2) {
+        AIToolbox::SparseMatrix2D m(S, A);
+        for (size_t s = 0; s < S; ++s) for (size_t a = 0; a < A; ++a) if (r[s][a] != 0.0) m.insert(s, a) = r[s][a];
+        if (m2) e.setM2Matrix(m); else e.setRewardMatrix(m);
+    }
+};
+
+template <class E>
+static void setterCase(Rng & rng, long nops, double junk) {
+    using T = SetterTypes<E>;
+    size_t S = (size_t)rng.range(1, 4), A = (size_t)rng.range(1, 2);
+    E exp(S, A);
+    std::vector<std::string> toks; size_t n = 0;
+    auto N = [&](size_t x) { toks.push_back(std::to_string(x)); };
+    auto D = [&](double x) { toks.push_back(X(x)); };
+    auto obs = [&](size_t s, size_t a) { for (size_t s1 = 0; s1 < S; ++s1) N(exp.getVisits(s, a, s1)); N(exp.getVisitsSum(s, a)); D(exp.getReward(s, a)); D(exp.getM2(s, a)); };
+    auto dump = [&]() { for (size_t s = 0; s < S; ++s) for (size_t a = 0; a < A; ++a) obs(s, a); };
+    for (long k = 0; k < nops; ++k) {
+        unsigned roll = (unsigned)rng.below(100);
+        if (roll < 50) {
+            size_t s = rng.below(S), a = rng.below(A), s1 = rng.below(S); double r = drawReward(rng, 0);
+            exp.record(s, a, s1, r);
+            toks.push_back("r"); N(s * A + a); N(s1); D(r); obs(s, a);
+        } else if (roll < 55) {
+            exp.reset(); toks.push_back("R"); dump();
+        } else if (roll < 67) {
+            std::vector<std::vector<std::vector<unsigned long>>> v(S, std::vector<std::vector<unsigned long>>(A, std::vector<unsigned long>(S, 0)));
+            for (auto & x : v) for (auto & y : x) for (auto & z : y) z = rng.coin(1, 2) ? 0 : (unsigned long)rng.range(1, 6);
+            if (rng.coin()) exp.setVisitsTable(v); else T::setV(exp, v, S, A);      // element-wise / Eigen-typed overload
+            toks.push_back("V"); for (size_t s = 0; s < S; ++s) for (size_t a = 0; a < A; ++a) for (size_t s1 = 0; s1 < S; ++s1) N(v[s][a][s1]);
+            dump();
+        } else if (roll < 87) {
+            bool m2 = roll >= 77;
+            std::vector<std::vector<double>> r(S, std::vector<double>(A, 0.0));
+            bool naive = rng.coin();
+            for (auto & x : r) for (auto & y : x) {
+                unsigned c = (unsigned)rng.below(8);
+                y = c < 2 ? 0.0 : (c == 2 ? 5e-7 : (m2 ? (double)rng.range(0, 40) / 4.0 : (double)rng.range(-32, 32) / 4.0));   // 5e-7: below the sparse element-wise store threshold
+            }
+            if (naive) { if (m2) exp.setM2Matrix(r); else exp.setRewardMatrix(r); } else T::setM(exp, r, S, A, m2);
+            toks.push_back(m2 ? "Q" : "M"); N(naive && T::tol ? 1 : 0);
+            for (size_t s = 0; s < S; ++s) for (size_t a = 0; a < A; ++a) D(r[s][a]);
+            dump();
+        } else {
+            M::MaximumLikelihoodModel<E> mod(exp, 0.9, true);
+            toks.push_back("F");
+            for (size_t s = 0; s < S; ++s) for (size_t a = 0; a < A; ++a) { for (size_t s1 = 0; s1 < S; ++s1) D(mod.getTransitionProbability(s, a, s1)); D(mod.getExpectedReward(s, a, 0)); }
+        }
+        ++n;
+    }
+    Line l; l << "C07" << "sethist" << T::name << S * A << S << A << junk << n;
+    for (auto & t : toks) l << t;
+    l.emit();
+    std::printf("#stat setters_%s 1\n", T::name);
+}
+
+// ---------------------------------------------------------------------------------------------
 static const long kFixed = 12;
 
 long verif::verif_ncases(const std::string & tier) { return kFixed + (tier == "thorough" ? 5000 : 330); }
@@ -634,6 +714,11 @@ void verif::verif_case(Rng & rng, long idx, const std::string & tier) {
         }
         fr.finish(junk);
         std::printf("#stat flat_gsparse 1\n");
+        return;
+    }
+    if (k % 13 == 12) {
+        if (rng.coin()) setterCase<M::Experience>(rng, rng.range(2, tier == "thorough" ? 400 : 80), junk);
+        else setterCase<M::SparseExperience>(rng, rng.range(2, tier == "thorough" ? 400 : 80), junk);
         return;
     }
     switch (k % 11) {
